@@ -112,6 +112,7 @@ theorem glomit_sim (p : Prims) {recO : Rec Obs} {rec : Rec σ} (h : Sim recO rec
     · simp only [mapSc_pure]
     · split <;> simp only [mapSc_fail, mapSc_bind_left, mapSc_pure, argVal_sim h]
   | probe id => simp only [glomit, mapSc_bind_left, mapSc_pure, obsOf_mode]
+  | iter s vm => simp only [glomit, mapSc_bind_left, mapSc_pure, listLoop_sim h, zipLoop_sim h]
 
 theorem modeFns_sim (p : Prims) {recO : Rec Obs} {rec : Rec σ} (h : Sim recO rec) (spec : Spec) (t : V) (own : σ) :
     argModeFn p recO spec t (obsOf own) = argModeFn p rec spec t own ∧
